@@ -37,7 +37,7 @@ func init() {
 }
 
 var c14Formats = []string{"gob", "gobstream", "npy", "csv", "pb", "fb"}
-var c14Layouts = []string{gen.LC, gen.LF, gen.LFconv, gen.LT, gen.LS, gen.LSS}
+var c14Layouts = []string{gen.LC, gen.LF, gen.LFconv, gen.LT, gen.LS, gen.LSS, gen.LCSS, gen.LST, gen.LTF}
 
 func c14Groups(tier string) []core.Group {
 	var gs []core.Group
@@ -160,12 +160,19 @@ func C14Decode(dir string) error {
 			continue
 		}
 		d := new(tensor.Dense)
-		if cs.Receiver == "usedF" {
-			if dt, ok := dtypeByName[cs.Dtype]; ok {
-				core.Catch(func() {
+		if dt, ok := dtypeByName[cs.Dtype]; ok && cs.Receiver != "" {
+			core.Catch(func() {
+				switch cs.Receiver {
+				case "usedF":
 					d = tensor.New(tensor.Of(gen.Dtype(dt)), tensor.WithShape(3, 2), tensor.AsFortran(nil))
-				})
-			}
+				case "usedT":
+					d = tensor.New(tensor.Of(gen.Dtype(dt)), tensor.WithShape(3, 2))
+					d.T()
+				case "usedMasked":
+					d = tensor.New(tensor.Of(gen.Dtype(dt)), tensor.WithShape(2, 2))
+					d.MaskFromSlice([]bool{true, false, true, true})
+				}
+			})
 		}
 		var derr error
 		p, msg := core.Catch(func() {
@@ -195,6 +202,14 @@ func C14Decode(dir string) error {
 			cs.GShape = m.Shape
 			for _, v := range m.V {
 				cs.GVals = append(cs.GVals, canon(v))
+			}
+			if cs.Receiver == "usedT" {
+				// nothing of the receiver's previous life may be pending on the decoded tensor: undoing "the" transpose is a no-op
+				d.UT()
+				if m2, e2 := gen.ReadAll(d); e2 != nil || !gen.ShapeEq(m2.Shape, m.Shape) || fmt.Sprint(m2.V) != fmt.Sprint(m.V) {
+					derr = fmt.Errorf("a transpose of the receiver's previous life is still pending on the decoded tensor: UT() turns shape %v into %v", m.Shape, d.Shape())
+					return
+				}
 			}
 			if d.IsMasked() {
 				cs.Masked = true
@@ -341,11 +356,13 @@ func c14Run(c *core.Ctx, format, lay string) {
 						desc: map[string]interface{}{"format": format, "source": op.Recipe, "mask": mk, "values": class},
 						key:  core.Sig(format, tn, shapeClass(shape), lay, mk, class)}
 					p.cs = c14Case{ID: id, Format: format, File: fmt.Sprintf("%d.%s", id, format), Dtype: tn}
-					if id%3 == 1 {
-						// every third case is decoded into a tensor that was something else before (column-major, another shape)
-						p.cs.Receiver = "usedF"
-						p.desc["receiver"] = "a used column-major (3,2) tensor of the same element type"
-						p.key = core.Sig(p.key, "into-used-F")
+					if id%2 == 1 {
+						// every second case is decoded into a tensor that was something else before: column-major, lazily transposed,
+						// or masked, of another shape
+						p.cs.Receiver = []string{"usedF", "usedT", "usedMasked"}[(id/2)%3]
+						p.desc["receiver"] = map[string]string{"usedF": "a used column-major (3,2) tensor of the same element type",
+							"usedT": "a used lazily transposed (3,2) tensor of the same element type", "usedMasked": "a used masked (2,2) tensor of the same element type"}[p.cs.Receiver]
+						p.key = core.Sig(p.key, "into-"+p.cs.Receiver)
 					}
 					snap := op.Snap()
 					meta := gen.MetaOf(op.D)
@@ -533,6 +550,10 @@ func c14Run(c *core.Ctx, format, lay string) {
 		}
 		if bad != "" {
 			viol("elements-differ", short(p.want.V), bad)
+			continue
+		}
+		if r.Masked && !(carriesMask && p.mask != nil) {
+			viol("mask-out-of-nowhere", "an unmasked tensor (the bytes carry no mask)", fmt.Sprint(r.GMask))
 			continue
 		}
 		if carriesMask && p.mask != nil {
